@@ -61,6 +61,8 @@ var (
 	lcBatchKey, _    = btcec.ParsePubKey(lcBatchKeyRaw)
 	lcSecret         = [32]byte{0x73, 0x65, 0x63, 0x72, 0x65, 0x74}
 	lcP2WKH, _       = hex.DecodeString("0014ccdeffed4f9c91d5bf45c34e4b8f03a5025ec062")
+	lcNP2WKH, _      = hex.DecodeString("a91458c11505b54582ab04e96d36908f85a8b689459787")
+	lcP2TR, _        = hex.DecodeString("5120bb91443dd777945ef4422cffddec00d5feed2aca2562a902fbe8d2a258b337da")
 )
 
 // ---------------------------------------------------------------- effect log
@@ -110,8 +112,45 @@ func (s *lcStore) UpdateAccount(a *account.Account, mods ...account.Modifier) er
 	return err
 }
 
+// lcBarrier makes two concurrently running spend handlers meet inside
+// Store.PendingBatch(): the first caller waits (bounded) for a second one. If
+// the manager serialises the handlers with its pending-batch mutex the second
+// caller cannot arrive and the first one continues after the timeout.
+type lcBarrier struct {
+	mu    sync.Mutex
+	n     int
+	first chan struct{}
+	both  chan struct{}
+}
+
+func newLcBarrier() *lcBarrier {
+	return &lcBarrier{first: make(chan struct{}), both: make(chan struct{})}
+}
+
+func (b *lcBarrier) arrive() {
+	b.mu.Lock()
+	b.n++
+	n := b.n
+	switch n {
+	case 1:
+		close(b.first)
+	case 2:
+		close(b.both)
+	}
+	b.mu.Unlock()
+	if n == 1 {
+		select {
+		case <-b.both:
+		case <-time.After(30 * time.Millisecond):
+		}
+	}
+}
+
 // PendingBatch mirrors pool's rpcserver.go accountStore wrapper.
 func (s *lcStore) PendingBatch() error {
+	if b := s.env.barrier; b != nil {
+		b.arrive()
+	}
 	_, err := s.DB.PendingBatchSnapshot()
 	return err
 }
@@ -173,10 +212,11 @@ func (n *lcNotifier) RegisterConfirmationsNtfn(ctx context.Context,
 	opts ...lndclient.NotifierOption) (chan *chainntnfs.TxConfirmation,
 	chan error, error) {
 
+	owner := n.owner(pkScript)
 	n.mu.Lock()
 	defer n.mu.Unlock()
 	r := &lcReg{
-		seq: len(n.regs), acct: n.env.curKey, conf: true, txid: *txid,
+		seq: len(n.regs), acct: owner, conf: true, txid: *txid,
 		script: append([]byte(nil), pkScript...), ctx: ctx,
 		confCh: make(chan *chainntnfs.TxConfirmation),
 	}
@@ -188,15 +228,27 @@ func (n *lcNotifier) RegisterSpendNtfn(ctx context.Context,
 	outpoint *wire.OutPoint, pkScript []byte,
 	heightHint int32) (chan *chainntnfs.SpendDetail, chan error, error) {
 
+	owner := n.owner(pkScript)
 	n.mu.Lock()
 	defer n.mu.Unlock()
 	r := &lcReg{
-		seq: len(n.regs), acct: n.env.curKey, op: *outpoint,
+		seq: len(n.regs), acct: owner, op: *outpoint,
 		script: append([]byte(nil), pkScript...), ctx: ctx,
 		spendCh: make(chan *chainntnfs.SpendDetail),
 	}
 	n.regs = append(n.regs, r)
 	return r.spendCh, make(chan error), nil
+}
+
+// owner attributes a registration to the account whose script it watches
+// (handlers of different accounts may register concurrently).
+func (n *lcNotifier) owner(pkScript []byte) int {
+	n.env.scriptMu.Lock()
+	defer n.env.scriptMu.Unlock()
+	if id := n.env.acctOfScript(pkScript); id != 0 {
+		return id
+	}
+	return n.env.curKey
 }
 
 // liveRegs returns the live registrations of one account in registration
@@ -229,30 +281,30 @@ func (c *lcCtrl) WatchAccountConf(k *btcec.PublicKey, h chainhash.Hash,
 	script []byte, numConfs, hint uint32) error {
 
 	c.env.curKey = c.env.acctID(k)
-	c.env.r.Count("ctrl/WatchAccountConf")
+	c.env.count("ctrl/WatchAccountConf")
 	return c.real.WatchAccountConf(k, h, script, numConfs, hint)
 }
 func (c *lcCtrl) CancelAccountConf(k *btcec.PublicKey) {
-	c.env.r.Count("ctrl/CancelAccountConf")
+	c.env.count("ctrl/CancelAccountConf")
 	c.real.CancelAccountConf(k)
 }
 func (c *lcCtrl) WatchAccountSpend(k *btcec.PublicKey, op wire.OutPoint,
 	script []byte, hint uint32) error {
 
 	c.env.curKey = c.env.acctID(k)
-	c.env.r.Count("ctrl/WatchAccountSpend")
+	c.env.count("ctrl/WatchAccountSpend")
 	return c.real.WatchAccountSpend(k, op, script, hint)
 }
 func (c *lcCtrl) CancelAccountSpend(k *btcec.PublicKey) {
-	c.env.r.Count("ctrl/CancelAccountSpend")
+	c.env.count("ctrl/CancelAccountSpend")
 	c.real.CancelAccountSpend(k)
 }
 func (c *lcCtrl) WatchAccountExpiration(k *btcec.PublicKey, expiry uint32) {
-	c.env.r.Count("ctrl/WatchAccountExpiration")
+	c.env.count("ctrl/WatchAccountExpiration")
 	if expiry <= c.env.watcherBest {
 		// the expiry watcher hands this off to HandleAccountExpiry in
 		// a goroutine: the op is only complete once it has returned
-		c.env.r.Count("ctrl/WatchAccountExpiration/immediate")
+		c.env.count("ctrl/WatchAccountExpiration/immediate")
 		atomic.AddInt64(&c.env.asyncExpected, 1)
 	}
 	c.real.WatchAccountExpiration(k, expiry)
@@ -279,6 +331,12 @@ func (h *lcHandler) HandleAccountSpend(k *btcec.PublicKey, s *chainntnfs.SpendDe
 		}()
 		err = h.real.HandleAccountSpend(k, s)
 	}()
+	h.env.logMu.Lock()
+	if h.env.handlerErr == nil {
+		h.env.handlerErr = map[int]error{}
+	}
+	h.env.handlerErr[h.env.acctID(k)] = err
+	h.env.logMu.Unlock()
 	h.env.lastHandlerErr = err
 	h.env.spendDone <- struct{}{}
 	return err
@@ -300,6 +358,7 @@ type lcWallet struct {
 	nextKey     *keychain.KeyDescriptor
 	failFunding bool
 	utxoSeq     uint32
+	fundSeq     uint32
 	fundCalls   int
 	pubCalls    int
 }
@@ -407,13 +466,28 @@ func (w *lcWallet) FundPsbt(_ context.Context, req *walletrpc.FundPsbtRequest) (
 	}})
 	tx.AddTxOut(&wire.TxOut{Value: out.Value, PkScript: out.PkScript})
 	tx.AddTxOut(&wire.TxOut{Value: change, PkScript: lcP2WKH})
+	pin := psbt.PInput{
+		WitnessUtxo: &wire.TxOut{Value: int64(utxoValue), PkScript: lcP2WKH},
+		PartialSigs: []*psbt.PartialSig{{Signature: []byte{1, 2, 3}}},
+	}
+	w.fundSeq++
+	switch w.env.r.Rng.Intn(4) {
+	case 0, 2:
+		// lnd's coin selection picked a nested P2WKH UTXO: the input carries a redeem
+		// script, whose push becomes the signature script (and part of the txid)
+		pin.WitnessUtxo.PkScript = lcNP2WKH
+		pin.RedeemScript = lcP2WKH
+		w.env.r.Count("fund/np2wkh-input")
+	case 1:
+		pin.WitnessUtxo.PkScript = lcP2TR
+		w.env.r.Count("fund/p2tr-input")
+	default:
+		w.env.r.Count("fund/p2wkh-input")
+	}
 	p := &psbt.Packet{
 		UnsignedTx: tx,
-		Inputs: []psbt.PInput{{
-			WitnessUtxo: &wire.TxOut{Value: int64(utxoValue), PkScript: lcP2WKH},
-			PartialSigs: []*psbt.PartialSig{{Signature: []byte{1, 2, 3}}},
-		}},
-		Outputs: []psbt.POutput{{}, {}},
+		Inputs:     []psbt.PInput{pin},
+		Outputs:    []psbt.POutput{{}, {}},
 	}
 	return p, 1, nil, nil
 }
@@ -436,6 +510,14 @@ func (w *lcWallet) FinalizePsbt(_ context.Context, p *psbt.Packet, _ string) (*p
 	tx := p.UnsignedTx
 	for i := range tx.TxIn {
 		pIn := &p.Inputs[i]
+		if len(pIn.RedeemScript) > 0 && len(pIn.FinalScriptSig) == 0 {
+			// what lnd's wallet does for a np2wkh input
+			sc, err := txscript.NewScriptBuilder().AddData(pIn.RedeemScript).Script()
+			if err != nil {
+				return nil, nil, err
+			}
+			pIn.FinalScriptSig = sc
+		}
 		switch {
 		case len(pIn.FinalScriptSig) > 0:
 			tx.TxIn[i].SignatureScript = pIn.FinalScriptSig
@@ -586,6 +668,10 @@ type lcEnv struct {
 	staleBatch   bool
 	staleApplied bool
 	allowStale   bool
+
+	barrier    *lcBarrier
+	handlerErr map[int]error
+	scriptMu   sync.Mutex
 }
 
 func (e *lcEnv) inBatch(k int) bool {
@@ -678,6 +764,13 @@ func (e *lcEnv) close() {
 	}
 	e.db.Close()
 	os.RemoveAll(e.dir)
+}
+
+// count is Run.Count for code that may run in two handler goroutines at once.
+func (e *lcEnv) count(bucket string) {
+	e.logMu.Lock()
+	e.r.Count(bucket)
+	e.logMu.Unlock()
 }
 
 func (e *lcEnv) addEvent(ev lcEvent) {
